@@ -659,6 +659,19 @@ func ruleReloadAllOrNothing(c *Ctx, rule string) {
 	}
 	um := calls(fn, "encoding/json.Unmarshal")
 	cp := calls(fn, "IPAM).ConfigurePool")
+	if len(um) == 0 {
+		// a streaming decoder reads the first JSON value and ignores what follows: accepted only with a check for trailing data
+		if dec := calls(fn, "json.Decoder).Decode"); len(dec) > 0 {
+			var more []ssa.CallInstruction
+			for _, m := range calls(fn, "json.Decoder).More", "json.Decoder).Token", "json.Decoder).Buffered") {
+				if c.reachAfter(dec[0], nil).has(m) {
+					more = append(more, m)
+				}
+			}
+			c.ob(rule, fn, "the whole value is one JSON document", dec[0], len(more) > 0 || len(dec) > 1, "json.Unmarshal rejects anything after the first value; (*Decoder).Decode does not, so it must be followed by a test for trailing data")
+			um = dec[:1]
+		}
+	}
 	if len(um) != 1 || len(cp) != 1 {
 		c.undecided(rule, fn, "Unmarshal / ConfigurePool", nil, fmt.Sprintf("expected one json.Unmarshal and one ConfigurePool call, found %d and %d", len(um), len(cp)))
 		return
